@@ -228,3 +228,29 @@ PROPS["C06"] = {
     "outside": [],
     "claimed": False,
 }
+
+PROPS["C05"] = {
+    "level": "translation_validation",
+    "prepare": g_prepare,
+    "jobs": [],
+    "designs": ["e1"],
+    "harness_tag": "c05",
+    "quick": r"^VerifC05_", "thorough": r"^VerifC05T?_",
+    "bounds": {},
+    "assumptions": [],
+    "outside": [],
+    "claimed": False,
+}
+
+PROPS["C08"] = {
+    "level": "translation_validation",
+    "prepare": g_prepare,
+    "jobs": [],
+    "designs": ["w1", "w2"],
+    "harness_tag": "c08",
+    "quick": r"^VerifC08_", "thorough": r"^VerifC08T?_",
+    "bounds": {},
+    "assumptions": [],
+    "outside": [],
+    "claimed": False,
+}
